@@ -11,6 +11,31 @@
 #include <iostream>
 #include <functional>
 #include <memory>
+#include <atomic>
+#include <condition_variable>
+
+// A mutex for the single-threaded script harnesses (threading variant "checked"): every lock / unlock reads a
+// field of the mutex object, so that using the mutex of a destroyed list / dispatcher / queue is a heap-use-after-free
+// for AddressSanitizer (it does not flag pthread_mutex_lock on freed memory), and a lock by the holder itself - which
+// with std::mutex is a silent self-deadlock - is reported at once.
+struct CheckedMutex {
+	volatile unsigned magic;
+	volatile bool held;
+	CheckedMutex() : magic(0xC0DEC0DEu), held(false) {}
+	~CheckedMutex() { magic = 0xDEADDEADu; }
+	CheckedMutex(const CheckedMutex &) = delete;
+	CheckedMutex & operator=(const CheckedMutex &) = delete;
+	void touch(const char * what) {
+		if(magic != 0xC0DEC0DEu) { std::fprintf(stderr, "CheckedMutex: %s on a destroyed mutex (the object that owns it is gone)\n", what); std::fflush(stderr); std::abort(); }
+	}
+	void lock() {
+		touch("lock");
+		if(held) { std::fprintf(stderr, "CheckedMutex: lock by the thread that already holds it (self-deadlock)\n"); std::fflush(stderr); std::abort(); }
+		held = true;
+	}
+	bool try_lock() { touch("try_lock"); if(held) return false; held = true; return true; }
+	void unlock() { touch("unlock"); held = false; }
+};
 #include <algorithm>
 
 namespace vh {
